@@ -39,7 +39,7 @@ def compare_reader(case, ots, mfs=None, mms=None):
 class StreamProp(E2Prop):
     """reader cases built from generated frame sequences"""
     n_quick = 1500
-    n_thorough = 20000
+    n_thorough = 60000
     seg_all = False
     limits = False
     def gen_streams(self, tier, rng):
@@ -75,7 +75,7 @@ class C05(StreamProp):
     id = 'C05'
     seg_all = True
     n_quick = 400
-    n_thorough = 6000
+    n_thorough = 15000
     rule = ('each generated stream under: whole, 1-byte drip, random cuts, WouldBlock between segments, pre-read split, read_buffer_size in {0,1,2,5,6,13,14,15,64,4096,131072}; '
             'every segmentation must equal the independent whole-stream decoder; distinct by trace')
     level_text = 'read_frame under ANY read schedule equals a whole-stream reference decoder (theorem, unbounded); message-level corollary; read_buffer_size absent from the model: independence of it rests on the correspondence runs'
@@ -472,8 +472,8 @@ class C11(E2Prop):
                                 allc.append((role, ops, peer, wpat, fpat))
             if tier == 'quick' and len(allc) > 1500:
                 allc = rng.sample(allc, 1500)
-            elif len(allc) > 40000:
-                allc = rng.sample(allc, 40000)
+            elif len(allc) > 120000:
+                allc = rng.sample(allc, 120000)
             for role, ops, peer, wpat, fpat in allc:
                 out.append(gen_e2.history('p%d' % k, role, ops, peer, wpat, fpat, 0, None, tail=1)); k += 1
         for i in range(500 if tier == 'quick' else 5000):
